@@ -59,7 +59,7 @@ var (
 	authids    = []any{"alice", "alice", "alice", "bob", "bob", "carol", "dave", "erin", "frank", "mallory", "", nil, 42.0, true, []any{"alice"}}
 	methodPool = []any{"anonymous", "ticket", "wampcra", "cryptosign", "ticket", "wampcra", "cryptosign", "", "unknown", "local", 42.0, nil, true,
 		[]any{"ticket"}, map[string]any{"m": "ticket"}, "Ticket", "anonymous "}
-	respKinds = []string{"valid", "valid", "valid", "replay", "replay", "wrongkey", "prefix", "longer", "empty", "tampered", "garbage", "hexofb64", "short", "upper"}
+	respKinds = []string{"valid", "valid", "valid", "replay", "replay", "wrongkey", "pubkey", "prefix", "longer", "empty", "tampered", "garbage", "hexofb64", "short", "upper"}
 	otherMsgs = []float64{16, 32, 48, 64, 6, 3, 2, 4, 8, 70, 34, 66, 49}
 )
 
@@ -431,6 +431,12 @@ func directedCases() []*Case {
 			HS{Rep: 3, Arrivals: []Arrival{hello([]any{m}, "alice", smuggle), auth("valid")}}))
 		cs = append(cs, mk("wrongkey-"+m, a, false,
 			HS{Rep: 4, Arrivals: []Arrival{hello([]any{m}, "alice", nil), auth("wrongkey")}}))
+		// nothing the CHALLENGE itself publishes is a key: also not for an authid the key store does not
+		// know (the authenticator then checks against a throw-away key) or whose key is empty
+		for _, who := range []string{"alice", "ghost", "erin"} {
+			cs = append(cs, mk("pubkey-"+m+"-"+who, a, false,
+				HS{Rep: 4, Arrivals: []Arrival{hello([]any{m}, who, nil), auth("pubkey")}}))
+		}
 		cs = append(cs, mk("timeout-"+m, a, false,
 			HS{Rep: 5, Arrivals: []Arrival{hello([]any{m}, "alice", nil), {D: 60001, M: []any{"auth", map[string]any{"resp": "valid"}}}}}))
 		cs = append(cs, mk("intime-"+m, a, false,
